@@ -22,31 +22,61 @@ SCENARIOS = {
 OBJ_BYTES = 16
 
 
+SKIP = ("operator", "std::", "__", "occa::verif", "free", "malloc", "pthread", "memcpy", "memset")
+
+
+def _frames(block):
+    out = []
+    for fm in re.finditer(r"#\d+ (.+?) (?:/\S+|<null>|\.\./\S+|\S+:\d+)", block):
+        name = re.sub(r"\(.*", "", fm.group(1)).strip()
+        if name and not name.startswith(SKIP) and not re.search(r"(^|\s)std::", name):
+            out.append(name)
+    return out
+
+
+def classify(kind, accesses):
+    """kind: TSan report kind; accesses: list (<=2) of frame lists of the racing accesses.
+    Specific names for the reports that belong to the recorded findings, generic ones otherwise."""
+    flat = [f for a in accesses for f in a[:4]]
+    tops = [a[0] if a else "?" for a in accesses]
+    tops = [t if t != "<null>" else (a[1] if len(a) > 1 else "?") for t, a in zip(tops, accesses)]
+    kind = re.sub(r"^SEGV.*", "SEGV", kind)
+    release_path = ("needsFree", "removeMemoryRef", "~modeMemory_t", "removeRef", "occa::memory::~memory",
+                    "occa::serial::memory::~memory", "removeModeMemoryRef")
+    if kind.startswith(("heap-use-after-free", "double-free", "attempting double-free", "SEGV", "DEADLYSIGNAL")):
+        # an access to (or second release of) a backend object that another thread already destroyed
+        if any(r in f for f in flat for r in release_path):
+            return "double-destroy:check-then-delete-outside-lock"
+        return "tsan:" + kind.replace(" ", "-") + ":" + "|".join(sorted(set(tops)))
+    if kind.startswith("data race"):
+        dtor = [("::~" in t and "emory" in t) for t in tops]
+        if all(dtor) or (any(dtor) and any(r in t for t in tops for r in release_path if "::~" not in r)):
+            return "double-destroy:check-then-delete-outside-lock"   # two threads releasing/destroying the same object
+        if any("needsFree" in f for f in tops) and any("removeRef" in f or "addRef" in f or "needsFree" in f for f in tops):
+            return "race:needsFree-read-outside-ring-lock"
+        counter = ("occa::device::malloc", "occa::modeBuffer_t::~modeBuffer_t", "occa::device::memoryAllocated", "occa::device::maxMemoryAllocated")
+        if all(any(t.startswith(c) for c in counter) for t in tops):
+            return "race:bytesAllocated-unsynchronised"
+        return "race:" + "|".join(sorted(set(tops)))
+    return "tsan:" + kind.replace(" ", "-")
+
+
 def race_signatures(logdir):
-    """ThreadSanitizer reports -> set of signatures 'race:<frameA>|<frameB>' (innermost libocca frames)."""
+    """ThreadSanitizer reports -> {signature: sample report text}."""
     sigs = {}
     for f in glob.glob(os.path.join(logdir, "tsan.*")):
         text = open(f, errors="replace").read()
-        for rep in text.split("WARNING: ThreadSanitizer: ")[1:]:
-            kind = rep.split("(")[0].strip().split("\n")[0]
-            frames = []
-            for block in re.split(r"\n\s*\n", rep):
-                m = re.search(r"#0 (\S+)", block)
-                if not m:
-                    continue
+        for rep in re.split(r"(?:WARNING|ERROR): ThreadSanitizer: ", text)[1:]:
+            kind = rep.split("\n")[0].split("(pid")[0].strip()
+            accesses = []
+            body = rep.split("\n", 1)[1] if "\n" in rep else rep      # drop the "<kind> (pid=..)" line
+            for block in re.split(r"\n\s*\n", body):
                 head = block.strip().split("\n")[0]
-                if not re.search(r"(Read|Write|Previous|Atomic) ", head, re.I) and "of size" not in head:
-                    continue
-                fn = None
-                for fm in re.finditer(r"#\d+ (.+?) (?:/|<null>|\S+:\d+)", block):
-                    name = fm.group(1)
-                    if name.startswith(("operator", "std::", "__", "verif", "occa::verif", "free", "malloc")):
-                        continue
-                    fn = re.sub(r"\(.*", "", name)
-                    break
-                frames.append(fn or "?")
-            key = "race:" + "|".join(sorted(set(frames[:2]))) if kind.startswith("data race") else "tsan:" + kind.replace(" ", "-")
-            sigs.setdefault(key, rep[:1500])
+                if re.match(r"\s*(Previous )?(atomic )?(read|write) of size", head, re.I):
+                    accesses.append(_frames(block))
+            if not accesses:
+                accesses = [_frames(rep)]
+            sigs.setdefault(classify(kind, accesses[:2]), rep[:1500])
     return sigs
 
 
@@ -65,7 +95,12 @@ def run(ctx):
         asimpl[sc] = r2.violated
     ctx.cov["as_implemented_model_violates"] = {k: (v or "-") for k, v in asimpl.items()}
     # 2. schedules of the as-implemented model, outcomes of the intended model
-    use = names if ctx.tier == "thorough" else ["DropDrop", "Drop3"]
+    use = names
+    # every schedule whose outcome is a double destruction kills the process (one restart each), so the
+    # larger scenarios are sampled (seeded); DropDrop is always executed completely
+    limit = {"DropDrop": None, "Drop3": 40, "Mixed": 40} if ctx.tier == "quick" else {"DropDrop": None, "Drop3": 400, "Mixed": 600}
+    import random
+    rnd = random.Random(ctx.seed)
     cases, meta = [], []
     intended = {}
     for sc in use:
@@ -77,6 +112,8 @@ def run(ctx):
         bs = b_json(g)
         if not bs:
             raise Broken("no schedules for %s" % sc)
+        if limit[sc] is not None and len(bs) > limit[sc]:
+            bs = rnd.sample(sorted(bs, key=lambda x: json.dumps(x["sched"])), limit[sc])
         for x in bs:
             c = dict(SCENARIOS[sc])
             c["sched"] = x["sched"]
@@ -84,7 +121,7 @@ def run(ctx):
             meta.append((sc, x))
     exe, lib = ctx.build_harness("shared_sched", ["shared_sched.cpp"], variant="tsan")
     env = ctx.occa_env(lib)
-    env["TSAN_OPTIONS"] = "report_bugs=0:exitcode=0"     # schedules are imposed: the registry is the observer here
+    env["TSAN_OPTIONS"] = "report_bugs=0:exitcode=66"     # schedules are imposed: the registry is the observer here
     outs, crashes = run_replayer(ctx, exe, env, cases, timeout=3000, max_restarts=len(cases) + 5)
     crashed = {c["beh"]: c for c in crashes}
     stuck = conform = known_shape = 0
@@ -136,6 +173,7 @@ def run(ctx):
     logdir = os.path.join(ctx.tmp, "tsanlogs")
     os.makedirs(logdir, exist_ok=True)
     stress_runs = 0
+    died = []
     for k, (threads, iters) in enumerate(plans):
         env = ctx.occa_env(lib)
         env["TSAN_OPTIONS"] = "log_path=%s/tsan:exitcode=0:halt_on_error=0:history_size=4:second_deadlock_stack=1" % logdir
@@ -144,7 +182,9 @@ def run(ctx):
         stress_runs += 1
         rep = [{"threads": threads, "iterations": iters, "seed": ctx.seed * 100 + k}]
         if rc != 0 or not os.path.exists(outp):
-            ctx.mismatch("stress-crash", "stress run with %d threads died (rc=%s): %s" % (threads, rc, out[-600:]), rep)
+            # the reason is in the sanitizer log (classified below with the other reports); a death with no
+            # report at all is a finding of its own
+            died.append((threads, rc, out[-400:], rep))
             continue
         res = json.load(open(outp))
         if res["anomalies"] > 0:
@@ -154,6 +194,10 @@ def run(ctx):
         if res["bytes"] != res["expected"]:
             ctx.mismatch("miscount:stress", "stress %d threads: memoryAllocated off by %d at quiescence" % (threads, res["bytes"] - res["expected"]), rep)
     races = race_signatures(logdir)
+    if died and not any(k.startswith(("double-destroy", "tsan:")) for k in races):
+        t, rc, out, rep = died[0]
+        ctx.mismatch("stress-crash:no-report", "stress run with %d threads died (rc=%s) without a sanitizer report: %s" % (t, rc, out), rep)
+    ctx.cov["stress_runs_died"] = len(died)
     for sig, text in sorted(races.items()):
         ctx.mismatch(sig, "ThreadSanitizer: " + " ".join(text.split())[:700], [{"tsan_report": text}])
     ctx.cov.update({"stress_runs": stress_runs, "tsan_report_signatures": sorted(races)})
